@@ -134,7 +134,8 @@ func stripParamSpill(v ssa.Value) ssa.Value {
 func Inlinable(root *ssa.Function) func(call ssa.CallInstruction, callee *ssa.Function) bool {
 	rel := core.RelPkg(root)
 	return func(call ssa.CallInstruction, callee *ssa.Function) bool {
-		if _, ok := call.(*ssa.Call); !ok {
+		// synchronous calls and deferred functions (they run in this frame, at its exit); never `go`
+		if _, isGo := call.(*ssa.Go); isGo {
 			return false
 		}
 		return callee != nil && callee.Blocks != nil && core.RelPkg(callee) == rel
@@ -190,7 +191,24 @@ func Before(a, b Event) bool {
 		if ca[i] == cb[i] {
 			continue
 		}
-		return Dominates(ca[i], cb[i])
+		// deferred work runs when the frame exits, last registered first
+		_, da := ca[i].(*ssa.Defer)
+		_, db := cb[i].(*ssa.Defer)
+		switch {
+		case da && db:
+			return Dominates(cb[i], ca[i])
+		case da:
+			return false
+		case db:
+			// b runs when the frame exits: a precedes it when a always runs before the registration, or always
+			// runs after it (b's registration dominates a and every path from it to the exit passes a)
+			if Dominates(ca[i], cb[i]) {
+				return true
+			}
+			return Dominates(cb[i], ca[i]) && NewPostDom(ca[i].Parent()).PostDominates(ca[i], cb[i])
+		default:
+			return Dominates(ca[i], cb[i])
+		}
 	}
 	return false
 }
@@ -266,6 +284,20 @@ func (x FV) ResolveTrace(stop func(*ssa.Function) bool) (FV, []FV) {
 				return FV{v, x.F}, trace
 			}
 			x = FV{args[idx], x.F.Parent}
+		case *ssa.FreeVar:
+			// a captured variable of a literal running inside the function that created it
+			if x.F == nil || x.F.Parent == nil || y.Parent() != x.F.Fn || x.F.Parent.Fn != x.F.Fn.Parent() {
+				return FV{v, x.F}, trace
+			}
+			al, isAl := FreeVarBinding(y).(*ssa.Alloc)
+			if !isAl {
+				return FV{v, x.F}, trace
+			}
+			sts := StoresTo(al)
+			if len(sts) != 1 {
+				return FV{v, x.F}, trace
+			}
+			x = FV{sts[0].Val, x.F.Parent}
 		case *ssa.Call:
 			f := Callee(y)
 			if f == nil || f.Blocks == nil || !core.InModule(f) || (stop != nil && stop(f)) {
